@@ -672,3 +672,36 @@ func (lk *Link) WriteLog(d Dir) []WriteRec {
 	defer lk.mu.Unlock()
 	return append([]WriteRec(nil), lk.Writes[d]...)
 }
+
+// Inject writes raw bytes into direction d as if the sending endpoint had written them (used
+// to play a misbehaving peer: malformed frames in the middle of a healthy conversation).
+func (lk *Link) Inject(d Dir, p []byte) {
+	if d == C2S {
+		lk.Client.Write(p)
+	} else {
+		lk.Server.Write(p)
+	}
+}
+
+// TextFrame builds one complete WebSocket text frame (masked with an all-zero key when
+// fromClient, as the protocol requires of clients).
+func TextFrame(payload []byte, fromClient bool) []byte {
+	var b []byte
+	b = append(b, 0x81)
+	mask := byte(0)
+	if fromClient {
+		mask = 0x80
+	}
+	switch n := len(payload); {
+	case n < 126:
+		b = append(b, mask|byte(n))
+	case n < 65536:
+		b = append(b, mask|126, byte(n>>8), byte(n))
+	default:
+		b = append(b, mask|127, 0, 0, 0, 0, byte(n>>24), byte(n>>16), byte(n>>8), byte(n))
+	}
+	if fromClient {
+		b = append(b, 0, 0, 0, 0)
+	}
+	return append(b, payload...)
+}
